@@ -160,8 +160,8 @@ class GenModel(torch.nn.Module):
 			elif t == "act":
 				m = ACTS[ly["name"]]()
 			elif t == "maxpool":
-				m = torch.nn.MaxPool1d(ly["k"])
-				L = L // ly["k"]
+				m = torch.nn.MaxPool1d(ly["k"], ceil_mode=bool(ly.get("ceil")))
+				L = -(-L // ly["k"]) if ly.get("ceil") else L // ly["k"]
 			elif t == "avgpool":
 				m = torch.nn.AvgPool1d(ly["k"])
 				L = L // ly["k"]
@@ -330,7 +330,9 @@ def gen_spec(r, L=None, need_nonlinear=True, allow_custom=True, allow_args=True,
 			trunk.append({"t": r.choice(["maxpool", "avgpool"]), "k": kk})
 			if trunk[-1]["t"] == "maxpool":
 				has_nl = True
-			curL //= kk
+				if r.chance(0.3):
+					trunk[-1]["ceil"] = True
+			curL = -(-curL // kk) if trunk[-1].get("ceil") else curL // kk
 		if r.chance(0.2):
 			trunk.append({"t": "dropout"})
 	head = []
@@ -358,7 +360,8 @@ def gen_spec(r, L=None, need_nonlinear=True, allow_custom=True, allow_args=True,
 		trunk.insert(r.randint(0, len(trunk)), {"t": "lazytable"})
 	head.append({"t": "linear", "out": n_targets})
 	return {"L": L, "trunk": trunk, "head": head, "n_targets": n_targets,
-		"n_args": (1 if (allow_args and r.chance(0.25)) else 0),
+		"n_args": (r.choice([1, 1, 2]) if (allow_args and r.chance(0.3)) else 0),
+		"arg_3d": r.chance(0.3),
 		"multi_output": bool(multi_output), "uses_custom": uses_custom,
 		"wseed": r.subseed(), "wscale": r.choice([0.3, 0.7, 1.2]),
 		"dtype": r.choice(["float64", "float64", "float32"]),
@@ -514,3 +517,20 @@ def scratch_attrs(model):
 
 def clone_model(model):
 	return copy.deepcopy(model)
+
+
+def make_args(mspec, n, dtype, lo=-1.0, hi=1.0):
+	"""The extra model inputs of a world: n_args tensors with per-example distinct
+	rows (2-D, or 3-D when the spec says so); None when the model takes none."""
+	k = mspec.get("n_args", 0)
+	if not k:
+		return None
+	out = []
+	for j in range(k):
+		base = torch.linspace(lo, hi, max(n, 1) + 2, dtype=dtype)[1:n + 1].reshape(n, 1) \
+			* (1.0 if j == 0 else -0.5)
+		if mspec.get("arg_3d") and j == k - 1:
+			base = base.reshape(n, 1, 1).expand(n, 2, 3).clone() + \
+				torch.arange(6, dtype=dtype).reshape(1, 2, 3) * 0.01
+		out.append(base)
+	return tuple(out)
